@@ -625,12 +625,16 @@ Fixpoint run_saving (c : cfg) (s : dstate) (saved : list lease) (h : list ((ip -
 
 (* saveConfig writes the acknowledged leases; loadByteArray restores those whose address lies in the
    file's net1 and whose client id is not empty — each as an entry of its own —; a restored lease points
-   at net1, or at net2 when its MAC is captured in the session AT LOAD TIME and its address lies in net2.
+   at net1, or at net2 when its MAC is captured in the session AT LOAD TIME and its address is a usable host
+   address of net2 (inside it, not its network or broadcast address: fix d15f9fe).
    The restored table is a function of (file, session capture state, configuration). *)
 Definition restore (cL : cfg) (se : sess) (saved : list lease) : list lease :=
   map (fun l => mkLease (l_cid l) SAllocated (l_mac l) (l_ip l) (l_offer l) (l_xid l)
                         (sess_captured se (l_mac l)
-                         && match l_ip l with Some x => n_contains cL true x | None => false end)
+                         && match l_ip l with
+                            | Some x => n_contains cL true x && negb (x =? n_lan cL true) && negb (x =? n_bcast cL true)
+                            | None => false
+                            end)
                         (l_exp l))
       (filter (fun l => lstate_eqb (l_state l) SAllocated
                         && match l_ip l with Some x => n_contains cL false x | None => false end
